@@ -5,6 +5,7 @@ CONSTANTS
   ThirdChoices = {TRUE, FALSE}
   DelChoices = {"none"}
   BlackoutChoices = {0}
+  PostChoices = {"none"}
   MatchOnCreate = TRUE
   RematchFix = TRUE
   GenK = 1000000
